@@ -25,6 +25,7 @@ def labelOf (s : String) : Option Label :=
   | '+' :: r => (natOfChars r 0).map .tick
   | 'L' :: r => (natOfChars r 0).map .look
   | 'T' :: r => (natOfChars r 0).map (fun t => .wake t .timeout)
+  | 'S' :: r => (natOfChars r 0).map (fun t => .wake t .spurious)
   | 'c' :: r =>
     (match splitC ':' r with
      | [t, c] => (match natOfChars t 0, callOf (String.ofList c) with
@@ -231,7 +232,8 @@ def runWith (kv : KV) (extra : Bool × List String × String) : String :=
     "timedtook:" ++ b01 (allRecs.any (fun r => (timeoutOf r.call).isSome && (toNat? r.res).isSome && r.fin != some r.start)),
     "blocked:" ++ b01 (!blocked.isEmpty),
     "left:" ++ b01 (!leftVals.isEmpty),
-    "recv:" ++ toString hist.length, "prod:" ++ toString prods.length ]
+    "recv:" ++ toString hist.length, "prod:" ++ toString prods.length,
+    "spurious:" ++ b01 (labelStrs.any (fun x => x.startsWith "S")) ]
     ++ (if anon then ["srv:1", "burst:" ++ get kv "burst"] else [])
   let diff := if !parsedAll then "unparsed-label"
     else match rej with
